@@ -35,6 +35,10 @@ def idempotence(cls, obj, what, expected_type):
         hdr = json.loads(text)["header"]
     if hdr.get("version") != current() or hdr.get("type") != expected_type:
         fails.append("%s: written header %s, expected version %s type %s" % (what, hdr, current(), expected_type))
+    gaps = layout_gaps(cls.__name__, text)
+    if gaps:
+        fails.append("%s: the file written after the upgrade is not a complete current-version file: documented key(s) missing: %s"
+                     % (what, ", ".join(gaps[:6])))
     again = cls()
     try:
         again.loads(text)
@@ -56,6 +60,53 @@ def idempotence(cls, obj, what, expected_type):
     except Exception as exc:
         fails.append("%s: re-read object cannot be written: %s: %s" % (what, type(exc).__name__, exc))
     return fails, text
+
+
+# keys every current-version file has according to doc/*-1.x.rst (optional ones - label, final, base product, stage2, media,
+# checksums, image tables - left out); frozen here, not read from the library
+IMAGE_KEYS = ("arch", "bootable", "checksums", "disc_count", "disc_number", "format", "implant_md5", "mtime", "path", "size",
+              "subvariant", "type", "volume_id")
+TI_KEYS = {"header": ("version", "type"), "release": ("name", "short", "version"), "tree": ("arch", "build_timestamp", "platforms", "variants"),
+           "general": ("family", "version", "name", "arch", "platforms", "timestamp", "variant", "variants")}
+
+
+def layout_gaps(cls_name, text):
+    gaps = []
+
+    def need(where, node, keys):
+        for k in keys:
+            if not isinstance(node, dict) or k not in node:
+                gaps.append("%s/%s" % (where, k))
+    if cls_name == "TreeInfo":
+        ini = ti_adapter.ini_parse(text)
+        for sec, keys in TI_KEYS.items():
+            if sec == "general" and not ini.get("tree", {}).get("variants", "x"):
+                keys = tuple(k for k in keys if k != "variant")          # a tree without variants has no main variant to name
+            need("[%s]" % sec, ini.get(sec), keys)
+        for sec in ini:
+            if sec.startswith("variant-"):
+                need("[%s]" % sec, ini[sec], ("id", "uid", "name", "type"))
+        return gaps
+    doc = json.loads(text)
+    need("header", doc.get("header"), ("version", "type"))
+    pay = doc.get("payload", {})
+    need("payload/compose", pay.get("compose"), ("id", "type", "date", "respin"))
+    if cls_name == "ComposeInfo":
+        need("payload/release", pay.get("release"), ("name", "short", "version", "type", "internal"))
+        for uid, v in pay.get("variants", {}).items():
+            need("payload/variants/%s" % uid, v, ("id", "uid", "name", "type", "arches", "paths"))
+    elif cls_name == "Images":
+        for v, arches in pay.get("images", {}).items():
+            for a, lst in arches.items():
+                for i, rec in enumerate(lst):
+                    need("payload/images/%s/%s/%d" % (v, a, i), rec, IMAGE_KEYS)
+    elif cls_name == "Rpms":
+        for v, arches in pay.get("rpms", {}).items():
+            for a, srpms in arches.items():
+                for sk, rpms in srpms.items():
+                    for rk, rec in rpms.items():
+                        need("payload/rpms/%s/%s/%s/%s" % (v, a, sk, rk), rec, ("path", "sigkey", "category"))
+    return gaps
 
 
 # compose sections of manifests: these versions carry date, type and respin explicitly, so they are facts of the document
